@@ -86,6 +86,38 @@ def templates(cfg):
 
     T("join_hidden_both", join_hidden, TU)
 
+    def rename_then_select_old_refs(p, t):
+        d = t >> p.rename({"a": "b", "b": "a"}) >> p.select(t.c, t.a, t.b)
+        return d >> p.mutate(p1=p.C.a, p2=t.a, p3=p.C.b), [p.colname(d[t.a]), p.colname(d[t.b]), p.colname(d[t.c])]
+
+    T("rename_then_select_old_refs", rename_then_select_old_refs)
+
+    def rename_select_drop(p, t):
+        d = t >> p.rename({"a": "z"}) >> p.select(t.b, t.a) >> p.drop(t.b)
+        return d >> p.mutate(p1=p.C.z, p2=t.a), [p.colname(d[t.a])]
+
+    T("rename_select_drop", rename_select_drop)
+
+    def join_suffix_then_select(p, t, u):
+        j = t >> p.inner_join(u, t.a == u.a) >> p.select(u.a, t.a, u.x)
+        return j >> p.mutate(p1=p.C.a_u, p2=u.a), [p.colname(j[u.a]), p.colname(j[t.a])]
+
+    T("join_suffix_then_select", join_suffix_then_select, TU)
+
+    TU3 = [("t", {"a": INT, "b": INT, "c": INT}), ("u", {"a": INT, "b": INT, "c": INT})]
+
+    def join_hidden_same_name(p, t, u):
+        j = t >> p.drop(t.b) >> p.inner_join(u >> p.drop(u.b), t.a == u.a)
+        return j >> p.mutate(p1=t.b, p2=u.b, p3=u.c)
+
+    T("join_hidden_same_name", join_hidden_same_name, TU3)
+
+    def join_overwritten_same_name(p, t, u):
+        j = t >> p.mutate(b=t.b + 1) >> p.left_join(u >> p.mutate(b=u.b * 2), t.a == u.a)
+        return j >> p.mutate(p1=t.b, p2=u.b, p3=p.C.b, p4=p.C.b_u)
+
+    T("join_overwritten_same_name", join_overwritten_same_name, TU3)
+
     def join_then_rename(p, t, u):
         j = t >> p.inner_join(u, t.a == u.a) >> p.rename({"a": "x", "x": "a"})
         return j >> p.mutate(p1=t.a, p2=u.x, p3=p.C.a, p4=p.C.x)
